@@ -117,6 +117,20 @@ fn main() {
     if 2 * 2 < x { println("big"); }
 }
 `,
+	// integer arithmetic where grouping and operand order matter (truncating division, remainders, subtraction)
+	"arithmetic": `fn f(a: int, b: int, c: int) -> int { a / b * c }
+fn g(a: int, b: int, c: int) -> int { a % b * c - a / b }
+fn main() {
+    println(7 / 2 * 3, 9 % 4 * 3, 7 / 2 * 3 + 1, (7 / 2) * 3, 3 * (7 / 2), 2 * (9 % 4));
+    println(f(7, 2, 3), f(9, 4, 5), g(7, 2, 3), g(9, 4, 5));
+    let x = 17;
+    let y = 5;
+    println(x / y * y + x % y, x - y - 3, x - (y - 3), x / (y / 2), x / y / 2, 100 / x * y);
+    println(x * y / 3, x / 3 * y, (x + y) / 4 * 4, x % y * 7 / 2);
+    let z = 0 - 7;
+    println(z / 2 * 2, z % 3 * 2, z * 2 / 3, 2 * z / 3);
+}
+`,
 	"nested-exits": `fn f(x: int) -> str {
     let out = "";
     for i in 0..6 {
